@@ -414,6 +414,10 @@ func (i *Int) SetBytes(a []byte) kyber.Scalar {
 func (i *Int) LittleEndian(minByte, maxBytes int) []byte {
 	act := i.MarshalSize()
 	vBytes := i.V.Bytes(i.M)
+	// like the default build, encode the value on its own length, not on the size of the modulus
+	for len(vBytes) > 0 && vBytes[0] == 0 {
+		vBytes = vBytes[1:]
+	}
 	vSize := len(vBytes)
 	if vSize < act {
 		act = vSize
